@@ -152,6 +152,11 @@ pub fn record_main(args: &[String]) -> i32 {
             };
             jobs.push((c, 0, w.max(crate::rec::N_DIRECTED)));
         }
+        // cases lifted from the scaled models (f64 base field), one scenario per line of $WF_LIFTED
+        if let Ok(p) = std::env::var("WF_LIFTED") {
+            let n = wfcommon::util::read_ndjson(&p).len() as u64;
+            jobs.push((0, crate::rec::LIFTED_BASE, crate::rec::LIFTED_BASE + n));
+        }
     }
     let (mut events, mut stuck, mut skipped) = (0u64, 0u64, 0u64);
     const SKIP_AFTER: u64 = 4;
